@@ -115,6 +115,11 @@ def run(res, drv, tier, seed):
             prob = estgen.gen_problem(r)
             engine = r.choice(['MD', 'MD', 'RDA', 'IG'])
             iters = r.choice([1, 2, 7, 100])
+        if (not directed) and ci % 7 == 3:
+            # pairwise measurements around a chordless cycle of 5-6 attributes: the junction tree needs fill-in edges that depend on earlier fill-in
+            prob = estgen.gen_cycle_problem(r, r.choice([5, 5, 6]))
+            engine, iters = r.choice(['MD', 'RDA', 'IG']), r.choice([1, 7, 25])
+            res.count('directed: chordless measurement cycle')
         stiff = (not directed) and ci % 5 == 0
         if stiff:
             # nearly noise-free measurements and one or two iterations: the Armijo search of mirror descent fails all 25 halvings and the
